@@ -52,7 +52,7 @@ def _sorted_walk(orig):
 _W = {}
 
 
-class Hang(Exception):
+class Hang(BaseException):       # not an Exception: nothing in the code under test (or in the probes) may swallow it
     pass
 
 
@@ -104,26 +104,34 @@ def _rebase_check(griffe, mod, problems: list):
 
 
 def run_case(case: dict) -> dict:
+    import signal
+
+    out = {"crash": "", "real": [], "final": {}, "trace": [], "rebase": [], "probes": []}
+    signal.setitimer(signal.ITIMER_VIRTUAL, 10.0, 10.0)      # 10 s of CPU time without an answer counts as a crash ("Hang")
+    try:
+        _run_case(case, out)
+    except Hang:
+        out["crash"] = "Hang"
+    finally:
+        signal.setitimer(signal.ITIMER_VIRTUAL, 0)
+    return out
+
+
+def _run_case(case: dict, out: dict):
     griffe, oracle = _W["griffe"], _W["oracle"]
     present = [e["m"] for e in case["prog"]]
     files = lib.render_program(case["prog"])
-    out = {"crash": "", "real": [], "final": {}, "trace": [], "rebase": []}
     with scratch("c05-") as d:
         lib.write_package(d, files)
         out["py"] = oracle.ask(d, present)
         tap = lib.Tap(griffe)
         try:
-            import signal
-
             loader = griffe.GriffeLoader(search_paths=[d], allow_inspection=False)
-            signal.setitimer(signal.ITIMER_VIRTUAL, 10.0)      # a load that does not come back within 10 s of CPU time counts as a crash ("Hang")
             try:
                 loader.load("p")
                 loader.resolve_aliases(implicit=True, external=False)
             except Exception as exc:  # noqa: BLE001
                 out["crash"] = type(exc).__name__
-            finally:
-                signal.setitimer(signal.ITIMER_VIRTUAL, 0)
         finally:
             tap.close()
         out["trace"] = tap.events
@@ -146,7 +154,6 @@ def run_case(case: dict) -> dict:
                     fin[n] = lib.oid(mem)
             out["final"][mod["m"]] = fin
             _rebase_check(griffe, robj, out["rebase"])
-    return out
 
 
 def run_chunk(cases: list) -> list:
